@@ -103,9 +103,13 @@ STD_CALLS = [
     (r'^isinf\|bool \((const )?(double|float)\)', 'NV_ISINF({0})'),
     (r'^isfinite\|bool \((const )?(double|float)\)', 'NV_FINITE({0})'),
     (r'^signbit\|bool \((const )?(double|float)\)', '__CPROVER_signd({0})'),
+    (r'^(sqrt|exp|log|log10|cbrt)\|double \((const )?double\)', None),      # -> NV_UF_<name>({0}) (filled in below)
+    (r'^pow\|double \((const )?double, (const )?double\)', 'NV_UF_pow({0}, {1})'),
     (r'^memcpy\|void \*\(void \*', 'memcpy((void*)({0}), (const void*)({1}), {2})'),
     (r'^operator=\|[^|]*\|std::atomic<(bool|int|long|unsigned long|unsigned int|double)>\|#2', '(*{&0} = {1})'),
 ]
+STD_CALLS = [x for rx, m in STD_CALLS for x in ([(rx, m)] if m is not None else
+                                                [(rx.replace('(sqrt|exp|log|log10|cbrt)', f), f'NV_UF_{f}({{0}})') for f in ('sqrt', 'exp', 'log10', 'log', 'cbrt')])]
 # sequential view of std::atomic<scalar>: a load is the value, a store is an assignment
 STD_MEMBERS = [
     (r'^(operator (bool|int|long|unsigned long|unsigned int|double)|load)\|std::atomic<(bool|int|long|unsigned long|unsigned int|double)>', '(*{self})'),
@@ -1254,6 +1258,24 @@ class Printer:
             for c in inits:
                 any_ = c.get('anyInit')
                 if not any_ or not c.get('inner'):
+                    if c.get('delegatingInit') and c.get('inner'):
+                        # delegating constructor `T(a) : T(f(a), g(a)) {}`: the target constructor is a `calls` mapping on
+                        # `ctor|<type>|<ctorType>` that names {self} (an extracted constructor or its contract): `target(self, args..);`
+                        e = c['inner'][0]
+                        while e.get('kind') in ('ExprWithCleanups', 'MaterializeTemporaryExpr', 'CXXBindTemporaryExpr') and e.get('inner'):
+                            e = e['inner'][0]
+                        if e.get('kind') != 'CXXConstructExpr':
+                            raise Unsupported(f'delegating initialiser of kind {e.get("kind")}')
+                        key = f'ctor|{strip_cv(qual(e["type"]))}|{e.get("ctorType", {}).get("qualType", "")}'
+                        m = self.lookup(self.calls, key)
+                        if m is None or '{self}' not in m:
+                            raise Unsupported(f'delegating constructor not mapped (the mapping must name {{self}}): {key}')
+                        self.hoisted = []
+                        call = self.apply(m, e.get('inner', []), selfexpr='self', node=e, key=key)
+                        pre += ''.join(f'  {h}\n' for h in self.hoisted)
+                        self.hoisted = None
+                        pre += f'  {call};\n' + self.after('  ')
+                        continue
                     if c.get('baseInit'):
                         e = self.expr(c['inner'][0]) if c.get('inner') else '((void)0)'
                         pre += f'  {e};\n' if e != '((void)0)' else ''
